@@ -88,6 +88,11 @@ def _datas(tier, seed):
         if i % step == 7:
             out.append(("L3x4", X))
     out.append(("clustered", fam.clustered(2, 2, seed)))
+    # the same generic data in very small / large units (exact powers of two): scores that are squared distances
+    # scale with the unit squared, ratios and selections do not
+    g = fam.generic_list(6, 6, seed, 1)[0]
+    out.append(("U6x6-unit2^-17", (np.array(g, float) * 2.0 ** -17).tolist()))
+    out.append(("U6x6-unit2^14", (np.array(g, float) * 2.0 ** 14).tolist()))
     return out
 
 
@@ -128,6 +133,8 @@ def cases(group):
     if kind == "FPS":
         inits.append("random")
     variants = ["none", "from-start", "before-last", "tight-abs", "tight-rel"] + (["relative"] if tier == "thorough" else [])
+    if group["label"].startswith("U"):
+        variants = ["none", "tight-rel", "relative", "tight-abs"]
     for ii, init in enumerate(inits):
         for v in variants:
             if tier == "quick" and v.startswith("tight") and ii > 0:
